@@ -10,8 +10,10 @@ Streams
              and on damaged descriptions, local and remote bases: appended entities per project
              list in order (class, name, re-based URL, parent) or the error class.
   lookup   : `find_used_modules`, `Project.find`, pathlib / urljoin re-basing vs their models.
-  pairs    : end to end - A built with `externalize`, B built against it (local relative path,
-             absolute path, remote URL with the fetch replaced); every href in B that leaves B
+  pairs    : end to end - A built with `externalize`, B built against it (local relative path in several
+             spellings, absolute path, remote URLs with / without path and trailing slash, the fetch
+             replaced); each description in modules.json is the one of the entity at that place
+             (identifiers shared by entities of different kinds included); every href in B that leaves B
              must hit an existing file + anchor in A that documents the entity named by the link;
              every reference B makes must be linked, to A's page or - for names B defines itself -
              to B's own; damaged / missing descriptions must not abort B's run.
@@ -27,7 +29,7 @@ import types
 import urllib.error
 from html.parser import HTMLParser
 from pathlib import Path, PurePosixPath
-from urllib.parse import urljoin
+from urllib.parse import urljoin, urlsplit
 
 from . import common, e2e
 from . import c16_gen as G
@@ -35,12 +37,29 @@ from .common import Driver, Report, lean_prove
 
 PROP = "C16"
 REMOTE = "http://ex.invalid/a"
+# where A's documentation is "published" for the remote pairs: host only, one path segment, a
+# sub-directory of a site, a port - each written with or without the trailing slash
+REMOTE_BASES = [REMOTE, "http://ex.invalid/docs/v1/proja", "https://ex.invalid", "http://ex.invalid:8080/pa",
+                "https://ex.invalid/~user/a.b"]
+REMOTE_HOST = "ex.invalid"
 
 # attributes reflected from FORD's objects: a fixed superset of external_project.ATTRIBUTES
 # (the model filters with the *generated* table, the implementation with its own)
 REFLECT = ["pub_procs", "pub_absints", "pub_types", "pub_vars", "functions", "subroutines", "interfaces",
            "absinterfaces", "types", "variables", "boundprocs", "vartype", "permission", "deferred", "generic",
            "attribs", "modprocs", "args", "finalprocs", "extends", "num_lines", "abstract", "kind", "proto"]
+
+
+_FORD = None
+
+
+def ford_mod():
+    """common.import_ford() once (every call of it prepends /venv/bin to PATH; thousands of calls make the
+    environment too large to start the driver)"""
+    global _FORD
+    if _FORD is None:
+        _FORD = common.import_ford()
+    return _FORD
 
 
 # --------------------------------------------------------------------------- token codecs
@@ -136,7 +155,7 @@ def reflect(obj, out, stats):
 # --------------------------------------------------------------------------- running the real code
 
 def make_settings(project_file: Path):
-    ford = common.import_ford()
+    ford = ford_mod()
     e2e.reset_global_state(ford)
     text = project_file.read_text()
     proj_docs, proj_data = ford.load_settings(text, project_file.parent, project_file.name)
@@ -147,7 +166,7 @@ def make_settings(project_file: Path):
 
 def correlate_only(project_file: Path):
     """Project(...) + correlate(), no output (what dump_modules sees apart from markdown)."""
-    ford = common.import_ford()
+    ford = ford_mod()
     import ford.fortran_project as fp
     cwd = os.getcwd()
     try:
@@ -168,26 +187,34 @@ class FakeResponse:
         return self.data
 
 
+def index_of(base: str) -> str:
+    """where the description of a project published at `base` lies"""
+    return base.rstrip("/") + "/modules.json"
+
+
 class patched_fetch:
     """Replace the network fetch of ford.external_project (there is no network here):
-    REMOTE/modules.json is served from `adoc`/modules.json."""
+    A's output directory is published at `base`; `<base>/modules.json` is served from `adoc`,
+    every other URL is 404 / unreachable."""
 
-    def __init__(self, adoc: Path | None, log: list | None = None):
+    def __init__(self, adoc: Path | None, log: list | None = None, base: str = REMOTE):
         self.adoc = adoc
+        self.base = base
         self.log = log if log is not None else []
 
     def __enter__(self):
-        ford = common.import_ford()
+        ford = ford_mod()
         import ford.external_project as xp
         self.xp = xp
         self.orig = xp.urlopen
 
         def fake(url, *a, **k):
+            url = getattr(url, "full_url", url)
             self.log.append(url)
-            if not str(url).startswith(REMOTE):
+            if urlsplit(str(url)).hostname != REMOTE_HOST:
                 raise urllib.error.URLError("no network in the verification sandbox")
             p = self.adoc / "modules.json" if self.adoc else None
-            if p is None or not p.is_file():
+            if str(url) != index_of(self.base) or p is None or not p.is_file():
                 raise urllib.error.HTTPError(url, 404, "Not Found", None, None)
             return FakeResponse(p.read_bytes())
 
@@ -247,28 +274,66 @@ def short(v):
     return s if len(s) < 160 else s[:157] + "..."
 
 
-def export_oracle(real_doc, A, display_private=False):
-    """modules.json lists exactly A's modules with exactly their public entities (None = holds)."""
+def export_mismatches(real_doc, A):
+    """modules.json lists exactly A's modules with exactly their public entities: every way in which it does
+    not, as (why, detail) - detail names module, table, and the entities listed wrongly / not listed."""
     mods = real_doc.get("modules") if isinstance(real_doc, dict) else None
     if not isinstance(mods, list):
-        return "modules.json has no list of modules"
+        return [("modules.json has no list of modules", None)]
     exp = G.expected_export(A)
     got_names = sorted(m.get("name", "?").lower() for m in mods)
     if got_names != sorted(exp):
-        return f"modules listed {got_names} but the project's modules are {sorted(exp)}"
+        return [(f"modules listed {got_names} but the project's modules are {sorted(exp)}", None)]
+    out = []
     for m in mods:
         e = exp[m["name"].lower()]
         for key, k in (("pub_procs", "procs"), ("pub_absints", "absints"), ("pub_types", "types"), ("pub_vars", "vars")):
             d = m.get(key)
             if not isinstance(d, dict):
-                return f"module {m['name']}: {key} missing"
+                out.append((f"module {m['name']}: {key} missing", None))
+                continue
             got = sorted(x.lower() for x, v in d.items() if v is not None)
             if got != e[k]:
-                return f"module {m['name']}: {key} lists {got} but the public {k} are {e[k]}"
+                low = {x.lower(): v for x, v in d.items() if v is not None}
+                ents = sorted({(e["origin"].get(x) or str(low[x].get("name", x)).lower()) if x in low else e["origin"].get(x, x)
+                               for x in set(got) ^ set(e[k])})
+                out.append((f"module {m['name']}: {key} lists {got} but the public {k} are {e[k]}",
+                            {"module": m["name"], "key": key, "got": got, "want": e[k], "entities": ents}))
             for x, v in d.items():
-                if v is not None and v.get("name", "").lower() != e["origin"].get(x.lower()):
-                    return f"module {m['name']}: {key}[{x}] describes {v.get('name')}, expected {e['origin'].get(x.lower())}"
+                if v is not None and x.lower() in e[k] and v.get("name", "").lower() != e["origin"].get(x.lower()):
+                    out.append((f"module {m['name']}: {key}[{x}] describes {v.get('name')}, expected {e['origin'].get(x.lower())}", None))
+    return out
+
+
+def export_oracle(real_doc, A, display_private=False):
+    """first violation of the above (None = holds)"""
+    mm = export_mismatches(real_doc, A)
+    return mm[0][0] if mm else None
+
+
+def ctor_statement_names(A) -> set:
+    """identifiers that name a derived type *and* its constructor (generic interface of the same name) and whose
+    accessibility is given by a PUBLIC / PRIVATE statement that differs from the default of their module"""
+    return {t["name"].lower() for m in A["modules"] for t in m["types"]
+            if t.get("ctor") and t["acc"] is not None and t["acc"] != m["default"]}
+
+
+def classify_export(detail, A) -> str | None:
+    if detail and detail.get("key") == "pub_procs" and detail["entities"] and \
+            set(detail["entities"]) <= ctor_statement_names(A):
+        return "C16-constructor-access-statement-ignored"
     return None
+
+
+def report_export(rep, case, real_doc, A):
+    """export_exact: every unexcused mismatch class once"""
+    seen = set()
+    for why, detail in export_mismatches(real_doc, A):
+        fid = classify_export(detail, A)
+        if fid in seen:
+            continue
+        seen.add(fid)
+        rep.failing_input(dict(case, oracle="export_exact", why=why, detail=detail), fid)
 
 
 # --------------------------------------------------------------------------- import stream
@@ -302,7 +367,7 @@ def render_val(v):
 
 def impl_import(doc, remote: bool, base: str, fetch_exc=None):
     """Real load_external_modules on a fake project; the fetch returns `doc` (or raises)."""
-    ford = common.import_ford()
+    ford = ford_mod()
     import ford.external_project as xp
     from ford.external_project import ENTITIES
     cls2key = {c.__name__: k for k, c in ENTITIES.items()}
@@ -338,6 +403,32 @@ def impl_import(doc, remote: bool, base: str, fetch_exc=None):
         out[ln] = [[cls2key.get(type(o).__name__, type(o).__name__), render_val(o.name), render_val(o.external_url),
                     "-" if o.parent is None else render_val(o.parent.name), keys(o)] for o in getattr(proj, ln)]
     return ["ok", out]
+
+
+def impl_index(written: str):
+    """real load_external_modules on the URL as written: [ok, remote?, URL fetched, base handed to dict2obj]"""
+    ford = ford_mod()
+    import ford.external_project as xp
+    proj = fake_project({"a": written}, Path("/"))
+    seen = {}
+    o_url, o_d2o = xp.urlopen, xp.dict2obj
+
+    def remote_open(u, *a, **k):
+        seen["fetched"] = str(getattr(u, "full_url", u))
+        return FakeResponse(b'[{"name": "m", "external_url": "./module/m.html", "obj": "module"}]')
+
+    def spy(project, extDict, url, parent=None, remote=False):
+        seen["base"], seen["remote"] = str(url), bool(remote)
+
+    xp.urlopen, xp.dict2obj = remote_open, spy
+    try:
+        with common.quiet():
+            xp.load_external_modules(proj)
+    finally:
+        xp.urlopen, xp.dict2obj = o_url, o_d2o
+    if not seen.get("remote"):
+        return ["ok", "0", "-", "-"]       # a local path (here: one without modules.json, costing only the links)
+    return ["ok", "1", seen.get("fetched", "-"), seen.get("base", "-")]
 
 
 def model_import_result(res):
@@ -438,17 +529,17 @@ def import_stream(rep, drv, rng, docs, n, stats):
         remote = rng.random() < 0.4
         if remote and not simple_rel_urls(doc):
             remote = False
-        base = rng.choice([REMOTE + "/", "http://ex.invalid/deep/er/"]) if remote else rng.choice(
+        # remote: the URL as written in `external:` - model and implementation both get exactly this text
+        base = (rng.choice(REMOTE_BASES + ["http://ex.invalid/deep/er"]) + rng.choice(["", "/"])) if remote else rng.choice(
             ["/abs/A/doc", "/x", "/abs/with space/doc"])
         cases.append((doc, tag, remote, base))
     reqs = [["c16.import", "1" if r else "0", b] + enc_json(d, []) for d, t, r, b in cases]
     got = drv.batch(reqs)
     bad = 0
     for (doc, tag, remote, base), g in zip(cases, got):
-        # the implementation adds the trailing slash itself for remote URLs
-        im = impl_import(doc, remote, base.rstrip("/") if remote and rng.random() < 0.5 else base)
+        im = impl_import(doc, remote, base)
         mo = model_import_result(g)
-        key = f"import:{tag.split(':')[0]}:{'remote' if remote else 'local'}:{im[0]}"
+        key = f"import:{tag.split(':')[0]}:{('remote' + ('/' if base.endswith('/') else '')) if remote else 'local'}:{im[0]}"
         stats[key] = stats.get(key, 0) + 1
         if im != mo:
             bad += 1
@@ -461,7 +552,7 @@ def import_stream(rep, drv, rng, docs, n, stats):
 # --------------------------------------------------------------------------- lookup stream
 
 def lookup_stream(rep, drv, rng, n, stats):
-    ford = common.import_ford()
+    ford = ford_mod()
     import ford.fortran_project as fp
     from ford.sourceform import ExternalModule
     names = ["foo", "Foo", "FOO", "bar", "Bar", "baz", "qux", "fo"]
@@ -520,6 +611,19 @@ def lookup_stream(rep, drv, rng, n, stats):
         rb = rng.choice([REMOTE + "/", "https://h.example/docs/v1/"])
         reqs.append(["c16.rebase", "1", rb, u])
         exp.append(["ok", urljoin(rb, u.split("/", 1)[-1])])
+        # urljoin itself, on bases as they are (no normalisation): host only, path with / without trailing slash
+        ub = rng.choice(["http://", "https://"]) + rng.choice(["h.example", "ex.invalid:8080", "a-b.c"]) + \
+            "".join("/" + rng.choice(["docs", "v1", "~u", "a.b", "x_y"]) for _ in range(rng.randint(0, 3))) + rng.choice(["", "/"])
+        reqs.append(["c16.rebase", "2", ub, u])
+        exp.append(["ok", urljoin(ub, u.split("/", 1)[-1])])
+        # what load_external_modules makes of the URL as written: remote?, the URL fetched, the base for dict2obj
+        if rng.random() < 0.1:
+            # near misses of `re.match("https?://", url)`: these are local paths for load_external_modules
+            ub = rng.choice(["HTTP://ex.invalid/a", "ftp://ex.invalid/a", "httpss://ex.invalid", "http:/ex.invalid/a",
+                             "//ex.invalid/a", "ahttp://ex.invalid/a", "Https://ex.invalid/a/"])
+        reqs.append(["c16.index", ub])
+        exp.append(impl_index(ub))
+        stats["index:" + exp[-1][1]] = stats.get("index:" + exp[-1][1], 0) + 1
     got = drv.batch(reqs)
     bad = 0
     for r, e, g in zip(reqs, exp, got):
@@ -601,6 +705,10 @@ def resolve_href(href: str, page: Path, bdoc: Path, adoc: Path, remote_base: str
         if remote_base and href.startswith(remote_base.rstrip("/") + "/"):
             rel = href[len(remote_base.rstrip("/")) + 1:]
             return "outward", (adoc / rel), frag
+        if remote_base and urlsplit(href).hostname == urlsplit(remote_base).hostname:
+            # on the site of A but not below the URL A's documentation is published at: a link into A
+            # that hits nothing of A's output
+            return "outward", adoc / "__not_below_the_external_url__" / urlsplit(href).path.lstrip("/"), frag
         return "other", None, None
     if href == "":
         return "internal", page, frag
@@ -612,6 +720,24 @@ def resolve_href(href: str, page: Path, bdoc: Path, adoc: Path, remote_base: str
     return "other", f, frag
 
 
+def ex_texts(ex) -> set:
+    return {ex["text"].lower()} | ({ex["alt"].lower()} if ex.get("alt") else set())
+
+
+def satisfies(hit, ex, homes) -> bool:
+    """the link `hit` leads to the entity the expectation `ex` refers to (page carrying its tracer, in the
+    directory of its kind, and - for entities documented inside a page - an anchor of its kind)"""
+    href, text_, cls, f, frag = hit
+    side, tracer = ex["target"]
+    if side == "A":
+        kind, lname, hs, pub = homes[tracer]
+        if cls != "outward" or f not in hs:
+            return False
+        pre = KIND_ANCHOR.get(kind)
+        return pre is None or (frag or "").startswith(pre)
+    return cls == "internal" and f is not None and f.is_file() and tracer in scan(f)[2]
+
+
 def check_links(B, A, bdoc: Path, adoc: Path, remote_base, homes, stats):
     """Property oracle on B's output.  Returns a list of failure dicts."""
     fails = []
@@ -620,6 +746,7 @@ def check_links(B, A, bdoc: Path, adoc: Path, remote_base, homes, stats):
         by_name.setdefault(lname, []).append((kind, hs, tr))
     n_out = 0
     page_links = {}
+    reported = set()      # (page, href, text) of outward links already found faulty by the per-link oracle
     for page in sorted(bdoc.rglob("*.html")):
         links, ids, text = scan(page)
         res = []
@@ -631,12 +758,15 @@ def check_links(B, A, bdoc: Path, adoc: Path, remote_base, homes, stats):
             n_out += 1
             rel = str(page.relative_to(bdoc))
             if not f.is_file():
-                fails.append({"oracle": "outward link target exists", "page": rel, "href": href, "text": text_})
+                fails.append({"oracle": "outward link target exists", "page": rel, "href": href, "text": text_,
+                              "outside_external_url": "__not_below_the_external_url__" in f.parts})
+                reported.add((page, href, text_))
                 continue
             if frag is not None:
                 _, tids, _ = scan(f)
                 if frag not in tids:
                     fails.append({"oracle": "outward link anchor exists", "page": rel, "href": href, "text": text_})
+                    reported.add((page, href, text_))
                     continue
             cands = by_name.get(text_.lower(), [])
             if not any(f in hs and (KIND_ANCHOR.get(kind) is None or (frag or "").startswith(KIND_ANCHOR[kind]))
@@ -644,6 +774,7 @@ def check_links(B, A, bdoc: Path, adoc: Path, remote_base, homes, stats):
                 fails.append({"oracle": "outward link leads to a page documenting the entity it names",
                               "page": rel, "href": href, "text": text_,
                               "known_entities_with_that_name": [(k, sorted(str(h.relative_to(adoc)) for h in hs)) for k, hs, _ in cands]})
+                reported.add((page, href, text_))
         page_links[page] = res
     stats["outward-links"] = stats.get("outward-links", 0) + n_out
     # expected references
@@ -653,28 +784,44 @@ def check_links(B, A, bdoc: Path, adoc: Path, remote_base, homes, stats):
         if not page.is_file():
             fails.append({"oracle": "B documents its own entity", "page": f"{d}/{name.lower()}.html", "expect": ex})
             continue
-        texts = {ex["text"].lower()} | ({ex["alt"].lower()} if ex.get("alt") else set())
+        texts = ex_texts(ex)
         hits = [r for r in page_links.get(page, []) if r[1].lower() in texts]
         side, tracer = ex["target"]
         stats["ref:" + ex["why"]] = stats.get("ref:" + ex["why"], 0) + 1
         if not hits:
             fails.append({"oracle": "reference is linked", "page": str(page.relative_to(bdoc)), "expect": ex})
             continue
-        for href, text_, cls, f, frag in hits:
-            if side == "A":
-                hs = homes[tracer][2]
-                if cls != "outward" or f not in hs:
-                    fails.append({"oracle": "reference to an entity of A is linked to A's page for it",
-                                  "page": str(page.relative_to(bdoc)), "href": href, "expect": ex,
-                                  "pages_documenting_it": sorted(str(h.relative_to(adoc)) for h in hs)})
-                    break
-            else:
-                okb = cls == "internal" and f is not None and f.is_file() and tracer in scan(f)[2]
-                if not okb:
-                    fails.append({"oracle": "a name B defines itself is linked to B's own entity",
-                                  "page": str(page.relative_to(bdoc)), "href": href, "expect": ex,
-                                  "went": cls})
-                    break
+        # an identifier may name several entities (type + constructor, component + module function ...):
+        # the links with that text on the page are judged against all the references made with it there -
+        # every one of them must lead to one of the entities referred to, and this entity must be reached
+        same = [e2 for e2 in B["expect"] if e2["page"] == ex["page"] and ex_texts(e2) & texts]
+
+        def names_another(h):
+            """the page may, besides the references the generator made, show other links with that text (an
+            inherited binding in a type summary ...): for a reference to A they may lead to any entity of A with
+            that identifier - when A has several - as long as it is the page (and anchor kind) documenting it"""
+            cands = by_name.get(h[1].lower(), [])
+            return side == "A" and len(cands) > 1 and h[2] == "outward" and any(
+                h[3] in hs_ and (KIND_ANCHOR.get(kind_) is None or (h[4] or "").startswith(KIND_ANCHOR[kind_]))
+                for kind_, hs_, tr_ in cands)
+
+        # (a link into A that the per-link oracle above already reported - missing page / anchor, wrong page - is
+        # not reported a second time under this reference, unless the reference reaches its entity through no link)
+        bad = [h for h in hits if not any(satisfies(h, e2, homes) for e2 in same) and not names_another(h)
+               and not (side == "A" and (page, h[0], h[1]) in reported)]
+        if not bad and any(satisfies(h, ex, homes) for h in hits):
+            continue
+        href, text_, cls, f, frag = (bad or hits)[0]
+        if side == "A":
+            hs = homes[tracer][2]
+            fails.append({"oracle": "reference to an entity of A is linked to A's page for it",
+                          "page": str(page.relative_to(bdoc)), "href": href, "expect": ex,
+                          "links_with_that_text": sorted({h[0] for h in hits}),
+                          "pages_documenting_it": sorted(str(h.relative_to(adoc)) for h in hs)})
+        else:
+            fails.append({"oracle": "a name B defines itself is linked to B's own entity",
+                          "page": str(page.relative_to(bdoc)), "href": href, "expect": ex,
+                          "went": cls})
     return fails, n_out
 
 
@@ -714,7 +861,7 @@ def undisplayed_parent_member(A, a_opts, url_file: str, name: str) -> bool:
 
 
 def classify_link(fail, A=None, a_opts=None) -> str | None:
-    if A is not None and fail.get("oracle") == "outward link target exists":
+    if A is not None and fail.get("oracle") == "outward link target exists" and not fail.get("outside_external_url"):
         f = fail.get("href", "").split("#")[0]
         if undisplayed_parent_member(A, a_opts or {}, "type/" + Path(f).name if "/type/" in f else f, fail.get("text", "")):
             return "C16-inherited-member-url-of-undisplayed-parent"
@@ -785,7 +932,7 @@ def pair_case(rep, drv, rng, d: Path, k: int, tier: str, stats, docs_out, counte
     base_case = {"stream": "pairs", "index": k, "mode": mode, "A": A, "B": {"modules": B["modules"], "expect": B["expect"]},
                  "a_files": a_files, "b_files": b_files, "a_options": a_opts, "rebuilt": rebuilt}
     shutil.rmtree(d / "A", ignore_errors=True)
-    ford = common.import_ford()
+    ford = ford_mod()
     captured = {}
     orig_dump = ford.dump_modules
 
@@ -829,35 +976,51 @@ def pair_case(rep, drv, rng, d: Path, k: int, tier: str, stats, docs_out, counte
             rep.tie_broken("correspondence export: model dumpModules differs from the real modules.json: "
                            + str(first_diff(model_doc, real_doc)), dict(base_case, diff=first_diff(model_doc, real_doc)))
     # --- export oracle
-    why = export_oracle(real_doc, A)
-    if why:
-        rep.failing_input(dict(base_case, oracle="export_exact", why=why), None)
+    report_export(rep, base_case, real_doc, A)
     homes = a_homes(A, adoc)
     # every exported public entity's URL exists in A's output and documents it
     for tr, (kind, lname, hs, pub) in homes.items():
         if pub and not hs:
             rep.failing_input(dict(base_case, oracle="A documents its public entity", why=f"{kind} {lname}: no page contains {tr}"), None)
-    why = exported_urls_oracle(real_doc, adoc, homes)
+    why = export_positions_oracle(real_doc, A, adoc, homes)
     if why:
+        rep.failing_input(dict(base_case, oracle="each exported description is that of the entity listed there", why=why), None)
+    seen_fid = set()
+    for why in exported_urls_oracle(real_doc, adoc, homes):
         fid = None
         if isinstance(why, tuple):
             why, nm_, f_ = why
             if undisplayed_parent_member(A, a_opts, f_, nm_):
                 fid = "C16-inherited-member-url-of-undisplayed-parent"
+            elif Path(f_).parent.name == "interface" and nm_.lower() in ctor_statement_names(A) and \
+                    any(t["name"].lower() == nm_.lower() and t["acc"] == "private" for m_ in A["modules"] for t in m_["types"]):
+                fid = "C16-constructor-access-statement-ignored"     # a private constructor listed: its page is not written
+        if fid in seen_fid:
+            continue
+        seen_fid.add(fid)
         rep.failing_input(dict(base_case, oracle="exported URL exists in A's output and documents the entity", why=why), fid)
     # --- B against A
-    ext_value = {"local": "a = ../A/doc", "local-abs": f"a = {adoc}", "remote": f"a = {REMOTE}" + ("/" if k % 2 else "")}[mode]
+    # remote: the URL as a user writes it - any of the published locations, with or without trailing slash
+    written = REMOTE_BASES[(k // 2) % len(REMOTE_BASES)] + ("/" if ((k // 2) // len(REMOTE_BASES)) % 2 else "")
+    local_spelling = ["../A/doc", "../A/doc/", "./../A/doc", "../A/./doc"][(k // 2) % 4]
+    ext_value = {"local": f"a = {local_spelling}", "local-abs": f"a = {adoc}" + ("/" if k % 4 == 0 else ""),
+                 "remote": f"a = {written}"}[mode]
     has_links = any(e.get("ford_link") for e in B["expect"]) or any(m["refs"] for m in B["modules"])
-    with patched_fetch(adoc):
+    with patched_fetch(adoc, base=written):
         rb = run_b(d, b_files, ext_value)
     counters["runs"] += 1
     bcase = dict(base_case, external=ext_value, has_ford_links=has_links, description=None)
     stats[f"pair:{mode}:{'links' if has_links else 'nolinks'}"] = stats.get(f"pair:{mode}:{'links' if has_links else 'nolinks'}", 0) + 1
+    if mode == "remote":
+        shape = ("host-only" if urlsplit(written).path in ("", "/") else "with-path") + (":slash" if written.endswith("/") else ":noslash")
+        stats["pair:remote-url:" + shape] = stats.get("pair:remote-url:" + shape, 0) + 1
+    for cc in {c for m in A["modules"] for c in m.get("coincide", [])}:
+        stats["pair:shared-identifier:" + cc] = stats.get("pair:shared-identifier:" + cc, 0) + 1
     if rb["rc"] != 0:
         c = dict(bcase, why="B's run aborted", exc=rb["exc"], trace=(rb.get("trace") or "")[-600:])
         rep.failing_input(c, classify_abort(c))
     else:
-        fails, n_out = check_links(B, A, d / "B" / "doc", adoc, REMOTE if mode == "remote" else None, homes, stats)
+        fails, n_out = check_links(B, A, d / "B" / "doc", adoc, written if mode == "remote" else None, homes, stats)
         counters["pairs_checked"] += 1
         if n_out > 0:
             counters["nontrivial"].add(common.digest([a_files, b_files, mode]))
@@ -877,7 +1040,7 @@ def pair_case(rep, drv, rng, d: Path, k: int, tier: str, stats, docs_out, counte
         if mode == "local-abs":
             break
         good = spoil(rng, adoc, bad)
-        with patched_fetch(adoc):
+        with patched_fetch(adoc, base=written):
             rb2 = run_b(d, {n: re.sub(r"\[\[([^\]]*)\]\]", r"\1", t) for n, t in b_files.items()}, ext_value)
         counters["runs"] += 1
         stats[f"bad:{bad}:{mode}:{'ok' if rb2['rc'] == 0 else 'abort'}"] = \
@@ -898,10 +1061,12 @@ def pair_case(rep, drv, rng, d: Path, k: int, tier: str, stats, docs_out, counte
 
 def exported_urls_oracle(doc, adoc: Path, homes):
     """every entity description in modules.json: URL (first segment stripped) exists in A's output,
-    anchor exists, and the page is one that documents an entity of that name"""
+    anchor exists, and the page is one that documents an entity of that name; all violations"""
     by_name = {}
     for tr, (kind, lname, hs, pub) in homes.items():
         by_name.setdefault(lname, []).append(hs)
+
+    found = []
 
     def walk(v):
         if isinstance(v, dict):
@@ -910,24 +1075,136 @@ def exported_urls_oracle(doc, adoc: Path, homes):
                 f, _, frag = u.partition("#")
                 p = adoc / f
                 if not p.is_file():
-                    return (f"{v['name']}: {v['external_url']} does not exist in A's output", v["name"], f)
-                if frag and frag not in scan(p)[1]:
-                    return f"{v['name']}: anchor #{frag} missing in {f}"
-                hs = by_name.get(v["name"].lower())
-                if hs is not None and not any(p in h for h in hs) and v.get("obj") != "variable":
-                    return f"{v['name']}: {f} does not document it"
+                    found.append((f"{v['name']}: {v['external_url']} does not exist in A's output", v["name"], f))
+                elif frag and frag not in scan(p)[1]:
+                    found.append(f"{v['name']}: anchor #{frag} missing in {f}")
+                else:
+                    hs = by_name.get(v["name"].lower())
+                    if hs is not None and not any(p in h for h in hs) and v.get("obj") != "variable":
+                        found.append(f"{v['name']}: {f} does not document it")
             for x in v.values():
-                r = walk(x)
-                if r:
-                    return r
+                walk(x)
         elif isinstance(v, list):
             for x in v:
-                r = walk(x)
-                if r:
-                    return r
+                walk(x)
+
+    walk(doc)
+    return found
+
+
+# --------------------------------------------------------------------------- positional export oracle
+
+OWN_LISTS = {"types": ("types", "type"), "functions": ("funcs", "func"), "subroutines": ("subs", "sub"),
+             "interfaces": ("generics", "generic"), "absinterfaces": ("absints", "absint"), "variables": ("vars", "var")}
+PUB_DICTS = {"pub_procs": ("func", "sub", "generic"), "pub_absints": ("absint",), "pub_types": ("type",),
+             "pub_vars": ("var",)}
+
+
+def export_positions_oracle(doc, A, adoc: Path | None = None, homes=None):
+    """"The exported description lists A's modules with their public entities": the description found at a
+    given place of modules.json (module M -> pub_types[T] -> variables[i], M -> interfaces[j], ...) must be the
+    description of the entity that *is* at that place in the source - decided by kind (directory of the URL,
+    anchor prefix) and, when A's output is at hand, by the entity's tracer on the page the URL names.  An
+    identifier shared by entities of different kinds (type + constructor, component + module function,
+    binding + the subroutine it binds to) therefore does not satisfy it with the other entity's description.
+    Returns None (holds) or a description of the first violation."""
+    mods = doc.get("modules") if isinstance(doc, dict) else None
+    if not isinstance(mods, list):
+        return None                     # reported by export_oracle
+    exp = G.expected_export(A)
+    public = [(k, e) for k, m, e, p in G.a_entities(A) if p]
+    tracer_kind = {e["tracer"]: k for k, m, e, p in G.a_entities(A)}
+
+    def judge(d, cands, path):
+        """`d` must be the description of one of `cands` [(kind, entity)] (same entity, several spellings of
+        where it is documented are fine)"""
+        if not isinstance(d, dict) or not cands:
+            return None
+        u = d.get("external_url")
+        if not isinstance(u, str):
+            return f"{path}: description of {d.get('name')} has no URL"
+        rel = u.split("/", 1)[-1]
+        f, _, frag = rel.partition("#")
+        why = []
+        for kind, e in cands:
+            if Path(f).parent.name != KIND_DIR[kind] or len(Path(f).parts) != 2:
+                why.append(f"a {kind} is documented under {KIND_DIR[kind]}/")
+                continue
+            pre = KIND_ANCHOR.get(kind)
+            if (pre and not frag.startswith(pre)) or (not pre and frag):
+                why.append(f"a {kind} is documented at {'#' + pre + '...' if pre else 'a page of its own'}")
+                continue
+            if homes is not None:
+                hs = homes[e["tracer"]][2]
+                if not hs or not (adoc / f).is_file():
+                    return None         # not displayed at all / missing page: the existence oracles speak
+                if (adoc / f) not in hs:
+                    why.append(f"{kind} {e['name']} is documented on {sorted(str(h.relative_to(adoc)) for h in hs)}")
+                    continue
+            return None
+        return f"{path}: {d.get('name')} is described as obj={d.get('obj')!r} at {u}, but " + "; ".join(why)
+
+    def type_members(m, t):
+        """components / bindings of t, inherited ones included (extension inside the module)"""
+        comps, bound, seen = [], [], set()
+        while t is not None and id(t) not in seen:
+            seen.add(id(t))
+            comps += t["comps"]
+            bound += t["bound"]
+            t = next((x for x in m["types"] if t["extends"] and x["name"].lower() == t["extends"].lower()), None)
+        return comps, bound
+
+    def walk_type(d, owner_m, t, path):
+        comps, bound = type_members(owner_m, t)
+        for key, lst, kind in (("variables", comps, "comp"), ("boundprocs", bound, "bound")):
+            for i, c in enumerate(d.get(key) or [] if isinstance(d.get(key), list) else []):
+                if isinstance(c, dict):
+                    r = judge(c, [(kind, e) for e in lst if e["name"].lower() == str(c.get("name", "")).lower()],
+                              f"{path}.{key}[{i}]")
+                    if r:
+                        return r
         return None
 
-    return walk(doc)
+    def owner_of_type(t):
+        return next(m for m in A["modules"] if any(x is t for x in m["types"]))
+
+    for md in mods:
+        if not isinstance(md, dict) or str(md.get("name", "")).lower() not in exp:
+            continue
+        m = G.module_of(A, md["name"])
+        path = f"$.modules[{md['name']}]"
+        r = judge(md, [("module", m)], path)
+        if r:
+            return r
+        for key, (lst, kind) in OWN_LISTS.items():
+            items = md.get(key)
+            for i, d in enumerate(items if isinstance(items, list) else []):
+                if not isinstance(d, dict):
+                    continue
+                cands = [(kind, e) for e in m[lst] if e["name"].lower() == str(d.get("name", "")).lower()]
+                r = judge(d, cands, f"{path}.{key}[{i}]")
+                if r:
+                    return r
+                if kind == "type" and cands:
+                    r = walk_type(d, m, cands[0][1], f"{path}.{key}[{i}]")
+                    if r:
+                        return r
+        for key, kinds in PUB_DICTS.items():
+            dd = md.get(key)
+            for x, d in (dd.items() if isinstance(dd, dict) else []):
+                if not isinstance(d, dict):
+                    continue
+                o = exp[m["name"].lower()]["origin"].get(x.lower())
+                cands = [(k, e) for k, e in public if k in kinds and e["name"].lower() == o]
+                r = judge(d, cands, f"{path}.{key}[{x}]")
+                if r:
+                    return r
+                if key == "pub_types" and cands:
+                    t = cands[0][1]
+                    r = walk_type(d, owner_of_type(t), t, f"{path}.{key}[{x}]")
+                    if r:
+                        return r
+    return None
 
 
 # --------------------------------------------------------------------------- entry point
@@ -942,7 +1219,7 @@ def run(tier: str, seed: int, replay: str | None = None) -> int:
     lean = lean_prove(PROP, translate=translate, thorough=(tier == "thorough"))
     for b in lean.broken():
         rep.tie_broken("proof: " + b)
-    common.import_ford()
+    ford_mod()
     rng = random.Random(seed * 10007 + 16)
     drv = Driver()
     stats: dict[str, int] = {}
@@ -964,7 +1241,7 @@ def run(tier: str, seed: int, replay: str | None = None) -> int:
             pf = e2e.write_project(d / "E", files, dict({"externalize": "true", "project": "projA"}, **opts))
             try:
                 project = correlate_only(pf)
-                ford = common.import_ford()
+                ford = ford_mod()
                 ford.dump_modules(project, path=d / "E")
                 real_doc = json.loads((d / "E" / "modules.json").read_text())
             except Exception as e:  # the generator produces valid Fortran: the real code must cope
@@ -976,10 +1253,13 @@ def run(tier: str, seed: int, replay: str | None = None) -> int:
                 bad_export += 1
             for kk, v in st.items():
                 stats[kk] = stats.get(kk, 0) + v
-            why = export_oracle(real_doc, A)
+            report_export(rep, {"stream": "export", "index": k, "A": A, "files": files, "options": opts}, real_doc, A)
+            why = export_positions_oracle(real_doc, A)
             if why:
                 rep.failing_input({"stream": "export", "index": k, "A": A, "files": files, "options": opts,
-                                   "oracle": "export_exact", "why": why}, None)
+                                   "oracle": "each exported description is that of the entity listed there", "why": why}, None)
+            for cc in {c for m in A["modules"] for c in m.get("coincide", [])}:
+                stats["export:shared-identifier:" + cc] = stats.get("export:shared-identifier:" + cc, 0) + 1
             if len(docs) < 60:
                 docs.append(real_doc)
             ev += 1
@@ -1012,8 +1292,9 @@ def run(tier: str, seed: int, replay: str | None = None) -> int:
     except Exception:
         pass
     rep.assumptions += [
-        "remote externals: the network fetch is replaced by the harness (urlopen serves A's modules.json); urljoin is "
-        "modelled for the relative references get_url produces (dir/file.html#anchor) only",
+        "remote externals: the network fetch is replaced by the harness (urlopen serves <URL as published>/modules.json "
+        "and nothing else); urljoin is modelled for bases http(s)://authority[/path] without query, fragment or empty "
+        "path segments and for the relative references get_url produces (dir/file.html#anchor) only",
         "pathlib's special case of exactly two leading slashes is not modelled",
         "Jinja templates / Markdown are on the implementation side only; their links are judged by the oracle on the HTML",
         "calls to external procedures are only visible in graphs, which are switched off in the generated pairs",
